@@ -455,8 +455,8 @@ def r05_5(prog, rep):
                 if c.get("fn") in fns:
                     for a in c["a"]:
                         t = lv(strip_casts(f.cfg.resolve(a)))
-                        m = re.match(r"^(this|that|res)->([a-z]+)(\[.*\])?$", t)
-                        if m:
+                        m = re.match(r"^([A-Za-z_]\w*)->([a-z]+)(\[.*\])?$", t)
+                        if m and m.group(1) in {l_["n"] for l_ in f.locals} | {p_["n"] for p_ in f.params}:
                             out.add(m.group(2))
             return out
         freed = substreams(slots.get("free"), ("free_echs_evstrm",))
